@@ -13,6 +13,7 @@ import (
 
 	"verif/internal/exact"
 	"verif/internal/h"
+	"verif/internal/refmodel"
 )
 
 // C12 — simplifiers only drop vertices, keep endpoints and honour their bound.
@@ -414,7 +415,7 @@ func init() {
 							}
 							gp := s.poly(clonePoly(pg))
 							c.Eval()
-							if !orb.Equal(gp, ep) {
+							if !refmodel.EqualValues(gp, ep) {
 								c.Fail("", "Polygon simplification is not ring-wise with collapsed holes dropped", map[string]interface{}{"simplifier": s.name, "polygon": sv(pg), "got": sv(gp), "expected": sv(ep)})
 							}
 							if len(ep) == 0 || len(ep[0]) <= 2 {
@@ -424,7 +425,7 @@ func init() {
 						}
 						got := s.mp(cloneMP(mp))
 						c.Eval()
-						if !(len(got) == 0 && len(exp) == 0) && !orb.Equal(got, exp) {
+						if !(len(got) == 0 && len(exp) == 0) && !refmodel.EqualValues(got, exp) {
 							c.Fail("", "MultiPolygon simplification does not drop exactly the polygons whose outer ring collapsed", map[string]interface{}{"simplifier": s.name, "multipolygon": sv(mp), "got": sv(got), "expected": sv(exp)})
 						}
 						// generic entry and collection, point kinds pass through
@@ -433,14 +434,14 @@ func init() {
 						gc := s.s.Simplify(coll)
 						c.Eval()
 						cc, ok := gc.(orb.Collection)
-						if !ok || len(cc) != 5 || !orb.Equal(cc[0], pt) || !orb.Equal(cc[1], mpt) || !orb.Equal(cc[2], bd) {
+						if !ok || len(cc) != 5 || !refmodel.EqualValues(cc[0], pt) || !refmodel.EqualValues(cc[1], mpt) || !refmodel.EqualValues(cc[2], bd) {
 							c.Fail("", "generic Simplify does not pass point kinds / bounds through a collection unchanged", map[string]interface{}{"simplifier": s.name, "got": sv(gc)})
 						} else {
 							var wantMP orb.Geometry
 							if len(exp) > 0 {
 								wantMP = exp
 							}
-							if !(cc[3] == nil && wantMP == nil) && !orb.Equal(cc[3], wantMP) {
+							if !(cc[3] == nil && wantMP == nil) && !refmodel.EqualValues(cc[3], wantMP) {
 								c.Fail("", "generic Simplify of a multi-polygon member differs from the typed method", map[string]interface{}{"simplifier": s.name, "got": sv(cc[3]), "expected": sv(wantMP)})
 							}
 						}
